@@ -231,12 +231,206 @@ def layout : Op := fun j => do
                ("original_orientation", ratMatToJson (Impl.arrayOriginalOrientation c rows))])
   | _, _ => throw "bad_region"
 
+/-! ### Histories (round-4 hardening): a short typed sequence of operations on a store of layouts,
+    headers, arrays and regions.  The model is purely functional, so every step's answer is the answer of
+    a FRESH object in the state the earlier steps produced. -/
+
+structure HState where
+  layouts : List (Nat × Option Impl.Layout2D) := []
+  headers : List (Nat × Corner) := []
+  arrays : List (Nat × (List (List Rat) × Nat)) := []
+  regions : List (Nat × Option R2) := []
+
+def errJ (s : String) : Json := obj [("err", Json.str s)]
+def okJ : Json := Json.str "ok"
+
+def viewJ (l : Impl.Layout2D) : Json :=
+  obj [("regions", layoutRegions l), ("roe", cornerToJson l.roe), ("shape", natsToJson [l.h, l.w])]
+
+def viewOptJ : Option Impl.Layout2D → Json
+  | some l => viewJ l
+  | none => errJ "bad_region"
+
+def lookupNat {β : Type} (k : Nat) : List (Nat × β) → Option β
+  | [] => none
+  | (a, b) :: t => if a = k then some b else lookupNat k t
+
+def putL (st : HState) (d : Nat) (v : Option Impl.Layout2D) : HState :=
+  { st with layouts := (d, v) :: st.layouts }
+def getL (st : HState) (i : Nat) : Option Impl.Layout2D := (lookupNat i st.layouts).join
+def getR (st : HState) (i : Nat) : Option R2 := (lookupNat i st.regions).join
+
+def getRegSpec (st : HState) (j : Json) : Except String (Option R2) :=
+  match j with
+  | Json.null => pure none
+  | Json.arr _ => do pure (some (← getR2 j))
+  | _ => do
+    let k ← getNat (← field j "ref")
+    match getR st k with
+    | some r => pure (some r)
+    | none => throw "bad_ref"
+
+def get3Spec (st : HState) (j : Json) : Except String (Option R2 × Option R2 × Option R2) := do
+  match (← getArr j) with
+  | [a, b, c] => pure (← getRegSpec st a, ← getRegSpec st b, ← getRegSpec st c)
+  | _ => throw "expected 3 regions"
+
+def getShape (j : Json) : Except String (Nat × Nat) := do
+  match (← getNats j) with
+  | [h, w] => pure (h, w)
+  | _ => throw "bad shape"
+
+def optMatJ : Option (List (List Rat)) → Json
+  | none => Json.null
+  | some m => ratMatToJson m
+
+def optR2J : Option R2 → Json
+  | some r => r2ToJson r
+  | none => errJ "bad_region"
+
+def setAt (rows : List (List Rat)) (y x : Nat) (v : Rat) : List (List Rat) :=
+  rows.zipIdx.map fun (r, i) => if i = y then r.set x v else r
+
+def hstep (arrs : List (List (List Rat))) (st : HState) (j : Json) : Except String (HState × Json) := do
+  let s ← getStr (← field j "s")
+  match s with
+  | "new" =>
+    let d ← getNat (← field j "dst")
+    let (h, w) ← getShape (← field j "shape")
+    let c ← getCorner (← field j "corner")
+    let (po, sp, so) ← get3Spec st (← field j "regions")
+    let via ← getStr (← field j "via")
+    let r := if via = "ctor" then Impl.layoutNew h w c po sp so
+             else Impl.layoutRotatedFromRoeCorner c h w po sp so
+    pure (putL st d r, viewOptJ r)
+  | "rot" =>
+    let d ← getNat (← field j "dst")
+    let c ← getCorner (← field j "corner")
+    match getL st (← getNat (← field j "src")) with
+    | none => pure (putL st d none, errJ "no_object")
+    | some l => let r := l.newRotatedFrom c; pure (putL st d r, viewOptJ r)
+  | "ext" =>
+    let d ← getNat (← field j "dst")
+    let e ← getR2 (← field j "window")
+    match getL st (← getNat (← field j "src")) with
+    | none => pure (putL st d none, errJ "no_object")
+    | some l => let r := l.extractedFrom e; pure (putL st d r, viewOptJ r)
+  | "read" =>
+    match getL st (← getNat (← field j "src")) with
+    | none => pure (st, errJ "no_object")
+    | some l => pure (st, viewJ l)
+  | "set" =>
+    let i ← getNat (← field j "src")
+    let k ← getNat (← field j "name")
+    let r ← getOptR2 (← field j "region")
+    match getL st i with
+    | none => pure (st, errJ "no_object")
+    | some l =>
+      let l' : Impl.Layout2D := if k = 0 then { l with parallelOverscan := r }
+                else if k = 1 then { l with serialPrescan := r } else { l with serialOverscan := r }
+      pure (putL st i (some l'), okJ)
+  | "set_roe" =>
+    let i ← getNat (← field j "src")
+    let c ← getCorner (← field j "corner")
+    match getL st i with
+    | none => pure (st, errJ "no_object")
+    | some l => pure (putL st i (some { l with roe := c }), okJ)
+  | "copy" =>
+    let d ← getNat (← field j "dst")
+    match getL st (← getNat (← field j "src")) with
+    | none => pure (putL st d none, errJ "no_object")
+    | some l => pure (putL st d (some l), okJ)
+  | "orient" =>
+    let k ← getNat (← field j "arr")
+    let ex ← getBool (← field j "extract")
+    match getL st (← getNat (← field j "src")) with
+    | none => pure (st, errJ "no_object")
+    | some l =>
+      let ra := l.originalOrientationFrom (arrs.getD k [])
+      let po := if ex then l.extractParallelOverscan ra else none
+      let so := if ex then l.extractSerialOverscan ra else none
+      pure (st, obj [("rows", ratMatToJson ra), ("po", optMatJ po), ("so", optMatJ so)])
+  | "decoy" => pure (st, okJ)
+  | "fault" => pure (st, okJ)
+  | "hnew" =>
+    let d ← getNat (← field j "dst")
+    let c ← getCorner (← field j "corner")
+    pure ({ st with headers := (d, c) :: st.headers }, okJ)
+  | "hset" =>
+    let d ← getNat (← field j "src")
+    let c ← getCorner (← field j "corner")
+    pure ({ st with headers := (d, c) :: st.headers }, okJ)
+  | "anew" =>
+    let d ← getNat (← field j "dst")
+    let k ← getNat (← field j "arr")
+    let hd ← getNat (← field j "hdr")
+    pure ({ st with arrays := (d, (arrs.getD k [], hd)) :: st.arrays }, okJ)
+  | "aread" =>
+    match lookupNat (← getNat (← field j "src")) st.arrays with
+    | none => pure (st, errJ "no_object")
+    | some (rows, hd) =>
+      match lookupNat hd st.headers with
+      | none => pure (st, errJ "no_object")
+      | some c => pure (st, ratMatToJson (Impl.arrayOriginalOrientation c rows))
+  | "aset" =>
+    let d ← getNat (← field j "src")
+    let y ← getNat (← field j "y")
+    let x ← getNat (← field j "x")
+    let v ← getRat (← field j "value")
+    match lookupNat d st.arrays with
+    | none => pure (st, errJ "no_object")
+    | some (rows, hd) => pure ({ st with arrays := (d, (setAt rows y x v, hd)) :: st.arrays }, okJ)
+  | "adecoy" => pure (st, okJ)
+  | "afault" => pure (st, okJ)
+  | "rnew" =>
+    let d ← getNat (← field j "dst")
+    let r := Impl.region2dNew (← getR2 (← field j "region"))
+    pure ({ st with regions := (d, r) :: st.regions }, optR2J r)
+  | "rset" =>
+    let d ← getNat (← field j "src")
+    let r ← getR2 (← field j "region")
+    pure ({ st with regions := (d, some r) :: st.regions }, okJ)
+  | "rdecoy" => pure (st, okJ)
+  | "rread" =>
+    match getR st (← getNat (← field j "src")) with
+    | none => pure (st, errJ "no_object")
+    | some r =>
+      let (h, w) ← getShape (← field j "shape")
+      let c ← getCorner (← field j "corner")
+      let px ← getIntPair (← field j "pixels")
+      let e ← getR2 (← field j "window")
+      let ext := match Impl.regionAfterExtraction r e with
+        | .value q => r2ToJson q
+        | .absent => Json.null
+        | .raised => errJ "bad_region"
+      pure (st, obj [("region", r2ToJson r), ("rows", intToJson r.totalRows),
+                     ("cols", intToJson r.totalColumns),
+                     ("slice", r2ToJson r),
+                     ("rot", optR2J (Impl.rotateRegion r h w c)),
+                     ("pfront", optR2J (Impl.parallelFront r px)),
+                     ("sfront", optR2J (Impl.serialFront r px)),
+                     ("ptrail", optR2J (Impl.parallelTrailing r px)),
+                     ("ext", ext)])
+  | _ => throw "bad_step"
+
+def history : Op := fun j => do
+  let arrs ← getList getRatMat (← field j "arrays")
+  let steps ← getArr (← field j "steps")
+  let mut st : HState := {}
+  let mut out : Array Json := #[]
+  for sj in steps do
+    let (st', o) ← hstep arrs st sj
+    st := st'
+    out := out.push o
+  pure (Json.arr out)
+
 def ops : List (String × Op) :=
   [("c19.region_new", regionNew), ("c19.rotate_array", rotateArray),
    ("c19.rotate_region", rotateRegion), ("c19.rotate_slice", rotateSlice),
    ("c19.x0x1", x0x1), ("c19.after_extraction", afterExtraction),
    ("c19.extract_slice", extractSlice), ("c19.sub_region", subRegion), ("c19.slice", slice),
-   ("c19.layout", layout), ("c19.layout_new", layoutNew)]
+   ("c19.layout", layout), ("c19.layout_new", layoutNew),
+   ("c19.history", history)]
 
 end Driver.C19
 
